@@ -315,6 +315,7 @@ async fn run_scenario(sc: Value, run: std::path::PathBuf, panics: std::sync::Arc
     let own_id = *b"-RD0001-verifverif01";
     let buf_size = sc["duplex_buf"].as_u64().unwrap_or(1 << 24) as usize;
 
+    let t0 = tokio::time::Instant::now();
     trace::start();
     net::activate();
     rdest::verif::clear_rate_overrides();
@@ -363,6 +364,13 @@ async fn run_scenario(sc: Value, run: std::path::PathBuf, panics: std::sync::Arc
         t.npieces, json!((0..t.npieces).map(|i| t.piece_len(i)).collect::<Vec<_>>()), hex(&info_hash), hex(&own_id),
         json!(peers.iter().map(|p| json!({"addr": p.addr, "id": hex(&p.id)})).collect::<Vec<_>>())));
 
+    // peers the client can connect to (listed by the tracker) must be reachable before the session starts
+    for (i, p) in sc["peers"].as_array().unwrap().iter().enumerate() {
+        if p["listen"].as_bool().unwrap_or(false) {
+            let s = net::register_outgoing(&peers[i].addr, buf_size);
+            peers[i].stream = Some(s);
+        }
+    }
     let mut session = rdest::Session::new(metainfo, own_id);
     let session_job = tokio::task::spawn_local(async move { session.run().await });
     quiesce().await;
@@ -405,6 +413,24 @@ async fn run_scenario(sc: Value, run: std::path::PathBuf, panics: std::sync::Arc
                         quiesce().await;
                     }
                 }
+            }
+            "advance_to" => {
+                // absolute virtual time (ms since the start of the scenario)
+                let target = t0 + Duration::from_millis(step["ms"].as_u64().unwrap());
+                tokio::time::sleep_until(target).await;
+            }
+            "race" => {
+                // write the frames and move the clock over a timer deadline before anything else runs,
+                // so that the manager finds its timer and the resulting command ready at the same poll
+                let mut bytes = vec![];
+                for f in step["frames"].as_array().unwrap() {
+                    bytes.extend_from_slice(&encode_frame(f, &t, &info_hash, &peers[pi].id));
+                    emit("Send", format!("\"peer\":\"{}\",\"f\":{}", peers[pi].addr, f));
+                }
+                if let Some(s) = peers[pi].stream.as_mut() {
+                    let _ = s.write_all(&bytes).await;
+                }
+                tokio::time::advance(Duration::from_millis(step["ms"].as_u64().unwrap_or(2))).await;
             }
             "close" => {
                 peers[pi].stream = None;
